@@ -60,17 +60,18 @@ func c07Registered(cfg []c07Entry) map[string]c07Entry {
 	return m
 }
 
-var c07Variants = []string{"own-name", "absent", "null", "unknown-url", "other-builtin-name", "ext0-name", "ext1-name", "own-tag-ext-name", "both-keys", "wrong-type", "own-name-json-escaped", "own-name-respelled", "refused-registration-name", "own-name-key-long-head", "unknown-url-key-long-head", "own-name+other-name-under-congruent-key"}
+var c07Variants = []string{"own-name", "absent", "null", "unknown-url", "other-builtin-name", "ext0-name", "ext1-name", "own-tag-ext-name", "both-keys", "wrong-type", "own-name-json-escaped", "own-name-respelled", "refused-registration-name", "own-name-key-long-head", "unknown-url-key-long-head", "own-name+other-name-under-congruent-key", "own-name-indefinite-length-map", "unknown-url-indefinite-length-map"}
 
 type c07Token struct {
-	shape     int  // key family of the claims in the token
-	valid     bool // the claims other than the profile are valid
-	ownVal    any  // value under the shape's own profile key/member: string, nil (JSON/CBOR null), float64(7), or absent marker
-	ownAbsent bool
-	otherVal  *string // value under the other family's profile key/member
-	ownTagVal *string // value under the "own-profile" JSON member (JSON only)
-	cbor      []byte
-	json      []byte
+	shape      int  // key family of the claims in the token
+	valid      bool // the claims other than the profile are valid
+	ownVal     any  // value under the shape's own profile key/member: string, nil (JSON/CBOR null), float64(7), or absent marker
+	ownAbsent  bool
+	otherVal   *string // value under the other family's profile key/member
+	ownTagVal  *string // value under the "own-profile" JSON member (JSON only)
+	indefinite bool    // the CBOR form is an indefinite-length map
+	cbor       []byte
+	json       []byte
 }
 
 func c07Build(shape int, valid bool, variant int) *c07Token {
@@ -91,9 +92,9 @@ func c07Build(shape int, valid bool, variant int) *c07Token {
 		own, other = other, own
 	}
 	switch c07Variants[variant] {
-	case "own-name", "own-name-json-escaped", "own-name-key-long-head", "own-name+other-name-under-congruent-key":
+	case "own-name", "own-name-json-escaped", "own-name-key-long-head", "own-name+other-name-under-congruent-key", "own-name-indefinite-length-map":
 		t.ownVal = own
-	case "unknown-url-key-long-head":
+	case "unknown-url-key-long-head", "unknown-url-indefinite-length-map":
 		t.ownVal = "http://unknown.example/p"
 	case "absent":
 		t.ownAbsent = true
@@ -155,6 +156,10 @@ func c07Build(shape int, valid bool, variant int) *c07Token {
 		// an unknown key that equals the profile-2 selector key modulo 2^32 carries the other profile's name (CBOR only)
 		tree.Pairs = append([][2]*mcbor.Node{{mcbor.U(1<<32 + 265), mcbor.T(other)}}, tree.Pairs...)
 	}
+	if strings.HasSuffix(c07Variants[variant], "-indefinite-length-map") {
+		tree = tree.Ind() // CBOR only; the library's decoder mode forbids indefinite-length items: an error whatever it declares
+		t.indefinite = true
+	}
 	t.cbor = mcbor.Encode(tree)
 	t.json, _ = json.Marshal(m)
 	if c07Variants[variant] == "own-name-json-escaped" {
@@ -200,6 +205,9 @@ func c07Model(t *c07Token, cfg []c07Entry, isJSON bool) c07Expect {
 	reg := c07Registered(cfg)
 	var e c07Entry
 	two := t.otherVal != nil
+	if !isJSON && t.indefinite {
+		return c07Expect{err: true}
+	}
 	if !isJSON {
 		// selector: text under key 265
 		present, v := t.profileFieldFor(2)
